@@ -21,6 +21,29 @@ fn m(spec: &'static str, c: &'static str) -> Source<&'static str, &'static str> 
   Source::Module { specifier: spec, maybe_headers: None, content: c }
 }
 fn main() {
+  if std::env::args().nth(1).as_deref() == Some("lockseed") {
+    // 7. a graph filled from the lockfile (jsr:@s/a@1 -> 1.0.0) and then built; with and without an
+    //    import whose requirement no listed version satisfies (which makes the builder restart)
+    for extra in ["", "import 'jsr:@s/b@2';"] {
+      let main: &'static str = Box::leak(format!("import 'jsr:@s/a@1';{}", extra).into_boxed_str());
+      let files = vec![
+        ("file:///main.ts", m("file:///main.ts", main)),
+        ("https://jsr.io/@s/a/meta.json", m("https://jsr.io/@s/a/meta.json", r#"{"versions":{"1.0.0":{},"1.1.0":{}}}"#)),
+        ("https://jsr.io/@s/a/1.0.0_meta.json", m("https://jsr.io/@s/a/1.0.0_meta.json", r#"{"exports":{".":"./mod.ts"},"manifest":{}}"#)),
+        ("https://jsr.io/@s/a/1.1.0_meta.json", m("https://jsr.io/@s/a/1.1.0_meta.json", r#"{"exports":{".":"./mod.ts"},"manifest":{}}"#)),
+        ("https://jsr.io/@s/a/1.0.0/mod.ts", m("https://jsr.io/@s/a/1.0.0/mod.ts", "export const v = '1.0.0';")),
+        ("https://jsr.io/@s/a/1.1.0/mod.ts", m("https://jsr.io/@s/a/1.1.0/mod.ts", "export const v = '1.1.0';")),
+        ("https://jsr.io/@s/b/meta.json", m("https://jsr.io/@s/b/meta.json", r#"{"versions":{"1.0.0":{}}}"#)),
+      ];
+      let loader = MemoryLoader::new(files, vec![]);
+      let mut g = ModuleGraph::new(GraphKind::All);
+      let req = deno_semver::jsr::JsrDepPackageReq::jsr(deno_semver::package::PackageReq::from_str("@s/a@1").unwrap());
+      g.fill_from_lockfile(FillFromLockfileOptions { redirects: std::iter::empty(), package_specifiers: vec![(&req, "1.0.0")].into_iter() });
+      futures::executor::block_on(g.build(vec![ModuleSpecifier::parse("file:///main.ts").unwrap()], vec![], &loader, BuildOptions { executor: &InlineExecutor, ..Default::default() }));
+      println!("main.ts = {:?}: lockfile @s/a@1 -> 1.0.0; graph mappings {:?}", main, g.packages.mappings());
+    }
+    return;
+  }
   if std::env::args().nth(1).as_deref() == Some("orphan") {
     // 6. embedded module info: dependencies are followed, then the content load of the importer fails
     let dep = "export const d = 1;\n";
